@@ -126,7 +126,8 @@ theorem showChunk_ne_nil (c : Chunk) : showChunk c ≠ [] := by
   simp [showChunk, hs]
 
 /-- scanning a printed chunk followed by nothing or by ';' gives the chunk back -/
-theorem scanChunk_showChunk (c : Chunk) (hc : 0 ≤ c.2) (rest : List Char) (hr : rest = [] ∨ ∃ r, rest = ';' :: r) :
+theorem scanChunk_showChunk (c : Chunk) (ha : c.1 < aidModulus) (hc : c.2 < tcModulus) (rest : List Char)
+    (hr : rest = [] ∨ ∃ r, rest = ';' :: r) :
     scanChunk (showChunk c ++ rest) = some c := by
   have hnd : NoDigitHead rest := by
     intro ch t h
@@ -134,19 +135,22 @@ theorem scanChunk_showChunk (c : Chunk) (hc : 0 ≤ c.2) (rest : List Char) (hr 
     · rw [hr] at h; cases h
     · rw [hr] at h; cases h; decide
   obtain ⟨aid, tc⟩ := c
-  simp only at hc
+  simp only at hc ha
+  have haid : aid % aidModulus = aid := Nat.mod_eq_of_lt ha
   by_cases hpos : tc > 0
-  · have h1 : NoDigitHead ('/' :: (showNat tc.toNat ++ rest)) := by
+  · have h1 : NoDigitHead ('/' :: (showNat tc ++ rest)) := by
       intro ch t h; simp at h; rw [← h.1]; decide
-    have hs : showChunk (aid, tc) ++ rest = showNat aid ++ ('/' :: (showNat tc.toNat ++ rest)) := by
+    have hs : showChunk (aid, tc) ++ rest = showNat aid ++ ('/' :: (showNat tc ++ rest)) := by
       simp [showChunk, hpos]
     rw [hs]
     unfold scanChunk
     rw [readNumber_showNat aid _ h1]
     simp only
-    rw [readNumber_showNat tc.toNat rest hnd]
-    simp only [Bool.false_eq_true, if_false]
-    have : ((tc.toNat : Nat) : Int) = tc := Int.toNat_of_nonneg hc
+    rw [readNumber_showNat tc rest hnd]
+    simp only [Bool.false_eq_true, if_false, haid]
+    have : ((tc : Int) % (tcModulus : Int)).toNat = tc := by
+      unfold tcModulus at hc ⊢
+      omega
     rw [this]
   · have htc : tc = 0 := by omega
     subst htc
@@ -154,7 +158,7 @@ theorem scanChunk_showChunk (c : Chunk) (hc : 0 ≤ c.2) (rest : List Char) (hr 
     rw [hs]
     unfold scanChunk
     rw [readNumber_showNat aid rest hnd]
-    simp only [Bool.false_eq_true, if_false]
+    simp only [Bool.false_eq_true, if_false, haid]
     rcases hr with hr | ⟨r, hr⟩ <;> subst hr <;> rfl
 
 end SgVerif.C41
